@@ -17,10 +17,13 @@ class Hist:
         self.lib = lib
         self.m = []
         self.init_exprs = []
+        self.sig_extra = {}       # extra signature fields for a violation at the current step
         for i in range(N):
             mv, ex = lib.init(rng, i)
             self.m.append(mv)
             self.init_exprs.append(ex)
+        if hasattr(lib, "begin"):
+            lib.begin(self, rng)
 
 
 class Lib:
@@ -481,7 +484,17 @@ class Srfi133(Lib):
         observe("vector-fold", "(vector-fold (lambda (acc x) (+ x (* 3 acc))) 1 %(a)s)", vfold)
         observe("vector-fold-right", "(vector-fold-right (lambda (acc x) (+ x (* 3 acc))) 1 %(a)s)", vfoldr)
         observe("vector-fold-list", "(vector-fold (lambda (acc x) (cons x acc)) '() %(a)s)", lambda a: a[::-1])
-        binary("vector-map2", "(vector-map (lambda (x y) (- x y)) %(a)s %(b)s)", lambda a, b: [x - y for x, y in zip(a, b)])
+        def vmap2(h, rng):
+            a, b = slot(rng), slot(rng)
+            return ("vector-map2", "(%%try (lambda () (vector->list (vector-map (lambda (x y) (- x y)) o%d o%d))))" % (a, b),
+                    [x - y for x, y in zip(h.m[a], h.m[b])], "pure")
+        o.append(vmap2)
+
+        def vfe2(h, rng):
+            a, b = slot(rng), slot(rng)
+            return ("vector-for-each2", "(%%try (lambda () (let ((acc '())) (vector-for-each (lambda (x y) (set! acc (cons (- x y) acc))) o%d o%d) acc)))" % (a, b),
+                    [x - y for x, y in zip(h.m[a], h.m[b])][::-1], "pure")
+        o.append(vfe2)
         unary("vector-map", "(vector-map (lambda (x) (* x x)) %(a)s)", lambda a: [x * x for x in a])
         mutate("vector-map!", lambda h, rng, a: ("(vector-map! (lambda (x) (- 9 x)) o%d)" % a, [9 - x for x in h.m[a]]))
         observe("vector-for-each", "(let ((acc '())) (vector-for-each (lambda (x) (set! acc (cons x acc))) %(a)s) acc)", lambda a: a[::-1])
@@ -622,4 +635,299 @@ def cumulate(a):
     return out
 
 
-LIBS = [Srfi1(), Srfi133()]
+
+# ================================================================================================
+# SRFI 113 (slots 0,1: sets; slots 2,3: bags)
+
+def sset(rng):
+    return rng.randrange(0, 2)
+
+
+def sbag(rng):
+    return rng.randrange(2, 4)
+
+
+def bag_list(c):
+    return sorted(c.elements())
+
+
+class Srfi113(Lib):
+    name = "srfi113"
+    imports = "(import (scheme base) (scheme write) (scheme process-context) (srfi 128) (srfi 113))"
+    header = ("(define cmp (make-default-comparator))\n"
+              "(define (%canon x) (%sorted (if (set? x) (set->list x) (bag-fold cons '() x))))\n"
+              ";; rebuild from the elements: a fresh object that shares nothing\n"
+              "(define (%fresh x) (if (set? x) (list->set cmp (set->list x))\n"
+              "  (let ((b (bag cmp))) (bag-for-each-unique (lambda (e n) (bag-increment! b e n)) x) b)))\n")
+    # results of these are built element by element into a new table; all other non-! operations start from
+    # set-copy / bag-copy of their first argument
+    FRESH = {"set-map", "set-filter", "set-remove", "set-filter!", "set-remove!", "list->set", "set-unfold", "set->bag", "bag-map",
+             "bag-filter", "bag-remove!", "list->bag", "alist->bag"}
+
+    def begin(self, h, rng):
+        # half of the histories rebuild every stored object from its elements ("safe"): they exercise every
+        # operation without depending on copy independence, which the other half observes
+        h.safe = rng.random() < 0.5
+        h.flag = [False] * N        # object's table came out of hash-table-copy without the mutable flag
+        h.sig_extra = {"sharing": "none"}
+        # bag-sum is wrong on the unchanged tree (known finding): keep it to a quarter of the histories
+        h.disabled = {"bag-sum", "bag-sum!"} if rng.random() < 0.75 else set()
+
+    def track(self, h, name, src, dst):
+        if h.safe:
+            return
+        if name in self.FRESH:
+            h.flag[dst] = False
+        elif name.endswith("!"):
+            pass
+        else:
+            if h.flag[src]:
+                h.sig_extra = {"sharing": "copy-of-copy"}
+            h.flag[dst] = True
+
+    def init(self, rng, i):
+        xs = rnd_list(rng)
+        if i < 2:
+            return set(xs), "(set cmp %s)" % " ".join(map(str, xs))
+        return collections.Counter(xs), "(bag cmp %s)" % " ".join(map(str, xs))
+
+    def canon(self, m):
+        return sorted(m) if isinstance(m, set) else bag_list(m)
+
+    def size(self, m):
+        return len(m) if isinstance(m, set) else sum(m.values())
+
+    def __init__(self):
+        Lib.__init__(self)
+        o = self.ops
+
+        lib = self
+
+        def src_of(expr):
+            i = expr.find("o")
+            while i >= 0:
+                if expr[i + 1:i + 2] in "0123" and not expr[i - 1].isalnum() and expr[i - 1] not in "-!?":
+                    return int(expr[i + 1])
+                i = expr.find("o", i + 1)
+            return 0
+
+        def sstore(h, d, val, expr, name):
+            h.m[d] = set(val)
+            lib.track(h, name, src_of(expr), d)
+            if h.safe:
+                expr = "(%%fresh %s)" % expr
+            return name, "(begin (set! o%d %s) (%%canon o%d))" % (d, expr, d), sorted(h.m[d])
+
+        def bstore(h, d, val, expr, name):
+            h.m[d] = collections.Counter({k: v for k, v in val.items() if v > 0})
+            lib.track(h, name, src_of(expr), d)
+            if h.safe:
+                expr = "(%%fresh %s)" % expr
+            return name, "(begin (set! o%d %s) (%%canon o%d))" % (d, expr, d), bag_list(h.m[d])
+
+        def s_x(name, fexpr, fmodel, inplace=False):
+            def op(h, rng):
+                a = sset(rng)
+                d = a if inplace else sset(rng)
+                x, y = elem(rng), elem(rng)
+                return sstore(h, d, fmodel(h.m[a], x, y), fexpr % {"a": "o%d" % a, "x": x, "y": y}, name)
+            o.append(op)
+        s_x("set-adjoin", "(set-adjoin %(a)s %(x)d %(y)d)", lambda a, x, y: a | {x, y})
+        s_x("set-adjoin!", "(set-adjoin! %(a)s %(x)d)", lambda a, x, y: a | {x}, inplace=True)
+        s_x("set-replace", "(set-replace %(a)s %(x)d)", lambda a, x, y: a)
+        s_x("set-delete", "(set-delete %(a)s %(x)d %(y)d)", lambda a, x, y: a - {x, y})
+        s_x("set-delete!", "(set-delete! %(a)s %(x)d)", lambda a, x, y: a - {x}, inplace=True)
+        s_x("set-delete-all", "(set-delete-all %(a)s (list %(x)d %(y)d 3))", lambda a, x, y: a - {x, y, 3})
+        s_x("set-delete-all!", "(set-delete-all! %(a)s (list %(x)d %(y)d))", lambda a, x, y: a - {x, y}, inplace=True)
+
+        def s_obs(name, fexpr, fmodel):
+            def op(h, rng):
+                a, b = sset(rng), sset(rng)
+                x = elem(rng)
+                ps, pf = rng.choice(PREDS)
+                return name, fexpr % {"a": "o%d" % a, "b": "o%d" % b, "x": x, "p": ps}, fmodel(h.m[a], h.m[b], x, pf), "pure"
+            o.append(op)
+        s_obs("set-contains?", "(list (set-contains? %(a)s %(x)d))", lambda a, b, x, p: [x in a])
+        s_obs("set-member", "(set-member %(a)s %(x)d -77)", lambda a, b, x, p: x if x in a else -77)
+        s_obs("set-size", "(set-size %(a)s)", lambda a, b, x, p: len(a))
+        s_obs("set-empty?", "(list (set-empty? %(a)s) (set? %(a)s))", lambda a, b, x, p: [len(a) == 0, True])
+        s_obs("set-disjoint?", "(list (set-disjoint? %(a)s %(b)s))", lambda a, b, x, p: [not (a & b)])
+        s_obs("set-find", "(let ((r (set-find %(p)s %(a)s (lambda () -77)))) (list (or (= r -77) (and (%(p)s r) (set-contains? %(a)s r)))))",
+              lambda a, b, x, p: [True])
+        s_obs("set-find-none", "(set-find (lambda (x) #f) %(a)s (lambda () -77))", lambda a, b, x, p: -77)
+        s_obs("set-count", "(set-count %(p)s %(a)s)", lambda a, b, x, p: sum(1 for e in a if p(e)))
+        s_obs("set-any?", "(list (set-any? %(p)s %(a)s) (set-every? %(p)s %(a)s))",
+              lambda a, b, x, p: [any(p(e) for e in a), all(p(e) for e in a)])
+        s_obs("set-for-each", "(let ((acc 0)) (set-for-each (lambda (x) (set! acc (+ acc (* x x) 1))) %(a)s) acc)",
+              lambda a, b, x, p: sum(e * e + 1 for e in a))
+        s_obs("set-fold", "(set-fold (lambda (x acc) (+ acc (* 3 x) 1)) 0 %(a)s)", lambda a, b, x, p: sum(3 * e + 1 for e in a))
+        s_obs("set->list", "(%%sorted (set->list %(a)s))", lambda a, b, x, p: sorted(a))
+
+        s_obs("set=?", "(list (set=? %(a)s %(b)s) (set<? %(a)s %(b)s) (set>? %(a)s %(b)s) (set<=? %(a)s %(b)s) (set>=? %(a)s %(b)s) (set=? %(a)s (set-copy %(a)s)))",
+              lambda a, b, x, p: [a == b, a < b, a > b, a <= b, a >= b, True])
+        s_obs("set-partition", "(call-with-values (lambda () (set-partition %(p)s %(a)s)) (lambda (x y) (list (%%canon x) (%%canon y))))",
+              lambda a, b, x, p: [sorted(e for e in a if p(e)), sorted(e for e in a if not p(e))])
+
+        def s_pred(name, fexpr, fmodel, inplace=False):
+            def op(h, rng):
+                a = sset(rng)
+                d = a if inplace else sset(rng)
+                ps, pf = rng.choice(PREDS)
+                return sstore(h, d, fmodel(h.m[a], pf), fexpr % {"a": "o%d" % a, "p": ps}, name)
+            o.append(op)
+        s_pred("set-filter", "(set-filter %(p)s %(a)s)", lambda a, p: {e for e in a if p(e)})
+        s_pred("set-remove", "(set-remove %(p)s %(a)s)", lambda a, p: {e for e in a if not p(e)})
+        s_pred("set-filter!", "(set-filter! %(p)s %(a)s)", lambda a, p: {e for e in a if p(e)}, inplace=True)
+        s_pred("set-remove!", "(set-remove! %(p)s %(a)s)", lambda a, p: {e for e in a if not p(e)}, inplace=True)
+
+        def s_map(h, rng):
+            a, d = sset(rng), sset(rng)
+            fs, ff = rng.choice(FUNS)
+            return sstore(h, d, {ff(e) for e in h.m[a]}, "(set-map cmp %s o%d)" % (fs, a), "set-map")
+        o.append(s_map)
+
+        def s_un(name, fexpr, fmodel):
+            def op(h, rng):
+                a, d = sset(rng), sset(rng)
+                return sstore(h, d, fmodel(h.m[a]), fexpr % {"a": "o%d" % a}, name)
+            o.append(op)
+        s_un("set-copy", "(set-copy %(a)s)", lambda a: a)
+        s_un("list->set", "(list->set cmp (append (set->list %(a)s) (list 1 1 2)))", lambda a: a | {1, 2})
+        s_un("list->set!", "(list->set! (set-copy %(a)s) (list 4 4 5))", lambda a: a | {4, 5})
+        s_un("set-unfold", "(set-unfold cmp (lambda (i) (> i (set-size %(a)s))) (lambda (i) (modulo (* i i) 7)) (lambda (i) (+ i 1)) 0)",
+             lambda a: {(i * i) % 7 for i in range(len(a) + 1)})
+
+        def s_bin(name, fexpr, fmodel, inplace=False):
+            def op(h, rng):
+                a = sset(rng)
+                b = sset(rng)
+                d = a if inplace else sset(rng)
+                if inplace and a == b:
+                    return None
+                return sstore(h, d, fmodel(h.m[a], h.m[b]), fexpr % {"a": "o%d" % a, "b": "o%d" % b}, name)
+            o.append(op)
+        s_bin("set-union", "(set-union %(a)s %(b)s)", lambda a, b: a | b)
+        s_bin("set-intersection", "(set-intersection %(a)s %(b)s)", lambda a, b: a & b)
+        s_bin("set-difference", "(set-difference %(a)s %(b)s)", lambda a, b: a - b)
+        s_bin("set-xor", "(set-xor %(a)s %(b)s)", lambda a, b: a ^ b)
+        s_bin("set-union!", "(set-union! %(a)s %(b)s)", lambda a, b: a | b, inplace=True)
+        s_bin("set-intersection!", "(set-intersection! %(a)s %(b)s)", lambda a, b: a & b, inplace=True)
+        s_bin("set-difference!", "(set-difference! %(a)s %(b)s)", lambda a, b: a - b, inplace=True)
+        s_bin("set-xor!", "(set-xor! %(a)s %(b)s)", lambda a, b: a ^ b, inplace=True)
+        s_bin("set-union3", "(set-union %(a)s %(b)s (set cmp 20 21))", lambda a, b: a | b | {20, 21})
+
+        # ---- bags
+        C = collections.Counter
+
+        def b_x(name, fexpr, fmodel, inplace=False):
+            def op(h, rng):
+                a = sbag(rng)
+                d = a if inplace else sbag(rng)
+                x, y = elem(rng), elem(rng)
+                k = rng.randrange(0, 4)
+                return bstore(h, d, fmodel(C(h.m[a]), x, y, k), fexpr % {"a": "o%d" % a, "x": x, "y": y, "k": k}, name)
+            o.append(op)
+
+        def add(c, x, n):
+            c[x] += n
+            if c[x] <= 0:
+                del c[x]
+            return c
+        b_x("bag-adjoin", "(bag-adjoin %(a)s %(x)d %(y)d %(x)d)", lambda a, x, y, k: add(add(add(a, x, 1), y, 1), x, 1))
+        b_x("bag-adjoin!", "(bag-adjoin! %(a)s %(x)d)", lambda a, x, y, k: add(a, x, 1), inplace=True)
+        b_x("bag-increment!", "(begin (bag-increment! %(a)s %(x)d %(k)d) %(a)s)", lambda a, x, y, k: add(a, x, k) if k else a, inplace=True)
+        b_x("bag-decrement!", "(begin (bag-decrement! %(a)s %(x)d %(k)d) %(a)s)", lambda a, x, y, k: add(a, x, -k) if k else a, inplace=True)
+        b_x("bag-product", "(bag-product %(k)d %(a)s)", lambda a, x, y, k: C({e: n * k for e, n in a.items()}))
+
+        def b_obs(name, fexpr, fmodel):
+            def op(h, rng):
+                a, b = sbag(rng), sbag(rng)
+                x = elem(rng)
+                ps, pf = rng.choice(PREDS)
+                return name, fexpr % {"a": "o%d" % a, "b": "o%d" % b, "x": x, "p": ps}, fmodel(h.m[a], h.m[b], x, pf), "pure"
+            o.append(op)
+        b_obs("bag-element-count", "(bag-element-count %(a)s %(x)d)", lambda a, b, x, p: a.get(x, 0))
+        b_obs("bag->list", "(%%sorted (bag->list %(a)s))", lambda a, b, x, p: bag_list(a))
+        b_obs("bag-size", "(list (bag-size %(a)s) (bag-unique-size %(a)s))", lambda a, b, x, p: [sum(a.values()), len(a)])
+        b_obs("bag-contains?", "(list (bag-contains? %(a)s %(x)d) (bag-empty? %(a)s) (bag? %(a)s))",
+              lambda a, b, x, p: [x in a, len(a) == 0, True])
+        b_obs("bag-count", "(bag-count %(p)s %(a)s)", lambda a, b, x, p: sum(n for e, n in a.items() if p(e)))
+        b_obs("bag->alist", "(%%sorted (map (lambda (p) (+ (* 1000 (car p)) (cdr p))) (bag->alist %(a)s)))",
+              lambda a, b, x, p: sorted(1000 * e + n for e, n in a.items()))
+        b_obs("bag-fold-unique", "(bag-fold-unique (lambda (x n acc) (+ acc (* x n) 1)) 0 %(a)s)",
+              lambda a, b, x, p: sum(e * n + 1 for e, n in a.items()))
+        b_obs("bag-for-each-unique", "(let ((acc 0)) (bag-for-each-unique (lambda (x n) (set! acc (+ acc (* x x n)))) %(a)s) acc)",
+              lambda a, b, x, p: sum(e * e * n for e, n in a.items()))
+        b_obs("bag-fold", "(bag-fold (lambda (x acc) (+ acc x 1)) 0 %(a)s)", lambda a, b, x, p: sum((e + 1) * n for e, n in a.items()))
+        b_obs("bag=?", "(list (bag=? %(a)s %(b)s) (bag<=? %(a)s %(b)s) (bag>=? %(a)s %(b)s) (bag<? %(a)s %(b)s) (bag=? %(a)s (bag-copy %(a)s)))",
+              lambda a, b, x, p: [a == b, sub(a, b), sub(b, a), sub(a, b) and a != b, True])
+        b_obs("bag-disjoint?", "(list (bag-disjoint? %(a)s %(b)s))", lambda a, b, x, p: [not (set(a) & set(b))])
+
+        def b_bin(name, fexpr, fmodel, inplace=False):
+            def op(h, rng):
+                a, b = sbag(rng), sbag(rng)
+                d = a if inplace else sbag(rng)
+                if (inplace and a == b) or name in h.disabled:
+                    return None
+                return bstore(h, d, fmodel(C(h.m[a]), C(h.m[b])), fexpr % {"a": "o%d" % a, "b": "o%d" % b}, name)
+            o.append(op)
+        b_bin("bag-union", "(bag-union %(a)s %(b)s)", lambda a, b: a | b)
+        b_bin("bag-intersection", "(bag-intersection %(a)s %(b)s)", lambda a, b: a & b)
+        b_bin("bag-difference", "(bag-difference %(a)s %(b)s)", lambda a, b: a - b)
+        b_bin("bag-xor", "(bag-xor %(a)s %(b)s)", lambda a, b: (a - b) + (b - a))
+        b_bin("bag-sum", "(bag-sum %(a)s %(b)s)", lambda a, b: a + b)
+        b_bin("bag-union!", "(bag-union! %(a)s %(b)s)", lambda a, b: a | b, inplace=True)
+        b_bin("bag-intersection!", "(bag-intersection! %(a)s %(b)s)", lambda a, b: a & b, inplace=True)
+        b_bin("bag-difference!", "(bag-difference! %(a)s %(b)s)", lambda a, b: a - b, inplace=True)
+        b_bin("bag-xor!", "(bag-xor! %(a)s %(b)s)", lambda a, b: (a - b) + (b - a), inplace=True)
+        b_bin("bag-sum!", "(bag-sum! %(a)s %(b)s)", lambda a, b: a + b, inplace=True)
+
+        def b_pred(name, fexpr, fmodel, inplace=False):
+            def op(h, rng):
+                a = sbag(rng)
+                d = a if inplace else sbag(rng)
+                ps, pf = rng.choice(PREDS)
+                return bstore(h, d, fmodel(h.m[a], pf), fexpr % {"a": "o%d" % a, "p": ps}, name)
+            o.append(op)
+        b_pred("bag-filter", "(bag-filter %(p)s %(a)s)", lambda a, p: C({e: n for e, n in a.items() if p(e)}))
+        b_pred("bag-remove!", "(bag-remove! %(p)s %(a)s)", lambda a, p: C({e: n for e, n in a.items() if not p(e)}), inplace=True)
+
+        def b_un(name, fexpr, fmodel):
+            def op(h, rng):
+                a, d = sbag(rng), sbag(rng)
+                return bstore(h, d, fmodel(C(h.m[a])), fexpr % {"a": "o%d" % a}, name)
+            o.append(op)
+        b_un("bag-copy", "(bag-copy %(a)s)", lambda a: a)
+        b_un("list->bag", "(list->bag cmp (append (bag-fold cons '() %(a)s) (list 1 1 2)))", lambda a: a + C([1, 1, 2]))
+        b_un("alist->bag", "(alist->bag cmp (bag->alist %(a)s))", lambda a: a)
+
+        def b_map(h, rng):
+            a, d = sbag(rng), sbag(rng)
+            fs, ff = rng.choice(FUNS)
+            r = C()
+            for e, n in h.m[a].items():
+                r[ff(e)] += n
+            return bstore(h, d, r, "(bag-map cmp %s o%d)" % (fs, a), "bag-map")
+        o.append(b_map)
+
+        def bag2set(h, rng):
+            a, d = sbag(rng), sset(rng)
+            return sstore(h, d, set(h.m[a]), "(bag->set o%d)" % a, "bag->set")
+        o.append(bag2set)
+
+        def set2bag(h, rng):
+            a, d = sset(rng), sbag(rng)
+            return bstore(h, d, C(h.m[a]), "(set->bag o%d)" % a, "set->bag")
+        o.append(set2bag)
+
+        def set2bagb(h, rng):
+            a, d = sset(rng), sbag(rng)
+            return bstore(h, d, C(h.m[d]) + C(h.m[a]), "(set->bag! o%d o%d)" % (d, a), "set->bag!")
+        o.append(set2bagb)
+
+
+def sub(a, b):
+    return all(b.get(e, 0) >= n for e, n in a.items())
+
+
+LIBS = [Srfi1(), Srfi133(), Srfi113()]
